@@ -35,7 +35,7 @@ S3 = R.SYSTEMS[3]
 
 
 def plan(tier, seed):
-    return [{"vsys": list(s), "mode": m} for s in S4 for m in ("mp", "f64", "numpy", "awkward")]
+    return [{"vsys": list(s), "mode": m} for s in S4 for m in ("mp", "f64", "numpy", "awkward", "record")]
 
 
 def _vec4_for(r, system, core):
@@ -330,7 +330,7 @@ def finalize(total, tier, seed):
     need = 20
     if len(laws) < need:
         total.inconc(f"only {len(laws)} distinct laws were exercised (expected >= {need})")
-    for m in ("mp", "f64", "numpy", "awkward"):
+    for m in ("mp", "f64", "numpy", "awkward", "record"):
         if not any(c.endswith("|" + m) for c in total.cells):
             total.inconc(f"mode {m} never compared")
     return {"laws": sorted(laws)}
